@@ -7,11 +7,16 @@
 // Memory-mapped views: real files made of library-serialized values are mapped and every view type is requested at
 // every offset (one forked child per file); a view that `new` returned is asked for its extent and touched at its
 // first and last element, so that a view beyond the mapping shows up in the range test or kills the child.
+// Objects (CObj): the safe entry points of Transformation (Identity / Complement), RankSupport and SelectSupport<T> are
+// called directly on a parent bitvector, with supports built by `new` from the parent itself and from ANOTHER bitvector
+// (shorter, longer, empty, all ones, all zeros, word-aligned or not), with extreme and boundary arguments.
 // Histories: random sequences of safe RawVector / IntVector calls (refused calls run on a clone and are dropped), then
 // the final length and backing words, the safe conversions into a BitVector and its iterators (CHistR / CHistI).
 use crate::bvgen::*;
 use crate::common::*;
-use simple_sds::bit_vector::BitVector;
+use simple_sds::bit_vector::rank_support::RankSupport;
+use simple_sds::bit_vector::select_support::SelectSupport;
+use simple_sds::bit_vector::{BitVector, Complement, Identity, Transformation};
 use simple_sds::bits;
 use simple_sds::int_vector::{IntVector, IntVectorMapper};
 use simple_sds::ops::*;
@@ -2099,6 +2104,200 @@ fn int_history(out: &mut Out, rng: &mut Rng) {
     emit_history(out, rng, "hist_int", &what, format!("CHistI {} {} {} [{}]", PATH, b(DBG), w0, terms.join("; ")), js, refused, raw);
 }
 
+// ---------------------------------------------------------------- objects: Transformation / RankSupport / SelectSupport called directly (CObj)
+
+const K_OBJ: u64 = 12;
+
+struct ObjSup {
+    rank: RankSupport,
+    sel: SelectSupport<Identity>,
+    sel0: SelectSupport<Complement>,
+}
+
+// the three supports `new` builds from a bitvector; `loaded`: the copies read back from the bytes the library wrote
+fn obj_sup(bv: &BitVector, loaded: bool) -> ObjSup {
+    let s = ObjSup { rank: RankSupport::new(bv), sel: SelectSupport::<Identity>::new(bv), sel0: SelectSupport::<Complement>::new(bv) };
+    if loaded {
+        ObjSup { rank: load_back(&s.rank), sel: load_back(&s.sel), sel0: load_back(&s.sel0) }
+    } else {
+        s
+    }
+}
+
+// `assert!(index < self.len(), "Index is out of bounds")` of IntVector::get is an assertion, whatever its message says
+fn fix_iv_get<T>(r: Res<T>) -> Res<T> {
+    match r {
+        Res::Panic(_, msg) if msg == "Index is out of bounds" => Res::Panic(P_ASSERT, msg),
+        other => other,
+    }
+}
+
+fn around(v: &mut Vec<usize>, x: usize) {
+    v.push(x.wrapping_sub(1));
+    v.push(x);
+    v.push(x.wrapping_add(1));
+}
+
+fn uniq(mut v: Vec<usize>) -> Vec<usize> {
+    v.sort();
+    v.dedup();
+    v
+}
+
+fn round_up(x: usize, k: usize) -> usize {
+    (x + k - 1) / k * k
+}
+
+fn nnlist(xs: &[(usize, usize)]) -> String {
+    plist(xs)
+}
+
+struct ObjCalls {
+    terms: Vec<String>,
+    descs: Vec<String>,
+    is9: Vec<bool>,
+}
+
+impl ObjCalls {
+    fn push<T>(&mut self, term: String, desc: String, r: &Res<T>) {
+        self.is9.push(class_of(r) == 9);
+        self.terms.push(term);
+        self.descs.push(format!("{}={}", desc, match r { Res::Ok(_) => "returned".to_string(), Res::Panic(k, _) => format!("panic class {}", k) }));
+    }
+}
+
+fn obj_t_calls<T: Transformation>(c: &mut ObjCalls, rng: &mut Rng, p: &BitVector, z: bool) {
+    let name = if z { "Complement" } else { "Identity" };
+    let len = p.len();
+    let nw = (len + 63) / 64;
+    let mut bits_at = extremes(len);
+    around(&mut bits_at, 64 * nw);
+    around(&mut bits_at, 64 * (len / 64));
+    bits_at.push(64 * nw + 63);
+    bits_at.push(64 * nw + 64);
+    if len > 0 {
+        bits_at.push(rng.below(len as u64) as usize);
+    }
+    for i in uniq(bits_at) {
+        mark(&format!("{}::bit(BitVector(len={}), {})", name, len, i));
+        let r = catch(|| T::bit(p, i));
+        c.push(format!("OBit {} {} {}", b(z), nz(i), ires(&r, |x| b(*x))), format!("{}::bit(parent,{})", name, i), &r);
+    }
+    // every word index around the buffer's end
+    let mut words_at: Vec<usize> = if nw <= 10 { (0..nw + 3).collect() } else { vec![0, 1, nw / 2] };
+    around(&mut words_at, nw);
+    around(&mut words_at, len / 64);
+    words_at.push(nw + 2);
+    words_at.push(2 * nw);
+    words_at.push(len);
+    for x in [1usize << 57, (1usize << 58) - 1, 1usize << 58, 1usize << 63, MAX - 1, MAX] {
+        words_at.push(x);
+    }
+    for k in uniq(words_at) {
+        mark(&format!("{}::word(BitVector(len={}), {})", name, len, k));
+        let r = catch(|| T::word(p, k));
+        c.push(format!("OWord {} {} {}", b(z), nz(k), ires(&r, |x| n(*x))), format!("{}::word(parent,{})", name, k), &r);
+    }
+    mark(&format!("{}::count_ones / one_iter(BitVector(len={}))", name, len));
+    let r = catch(|| T::count_ones(p));
+    c.push(format!("OCount {} {}", b(z), ires(&r, |x| nu(*x))), format!("{}::count_ones(parent)", name), &r);
+    let r = catch(|| T::one_iter(p).take(3).collect::<Vec<(usize, usize)>>());
+    c.push(format!("OIter3 {} {}", b(z), ires(&r, |x| nnlist(x))), format!("{}::one_iter(parent).take(3)", name), &r);
+}
+
+fn obj_rank_calls(c: &mut ObjCalls, rng: &mut Rng, p: &BitVector, q: &BitVector, rs: &RankSupport, own: bool) {
+    let who = if own { "own" } else { "other" };
+    let (len, qlen) = (p.len(), q.len());
+    let r = catch(|| rs.blocks());
+    c.push(format!("OBlocks {} {}", b(own), ires(&r, |x| nu(*x))), format!("RankSupport[{}].blocks()", who), &r);
+    let mut at = extremes(len);
+    at.extend(extremes(qlen));
+    for l in [len, qlen] {
+        around(&mut at, 64 * ((l + 63) / 64));
+        around(&mut at, 64 * (l / 64));
+        around(&mut at, 512 * ((l + 511) / 512));
+        around(&mut at, 512 * (l / 512));
+    }
+    for _ in 0..4 {
+        at.push(rng.below((std::cmp::max(len, qlen) + 600) as u64) as usize);
+    }
+    for i in uniq(at) {
+        mark(&format!("RankSupport[{} of len {}].rank(BitVector(len={}), {})", who, if own { len } else { qlen }, len, i));
+        let r = catch(|| rs.rank(p, i));
+        c.push(format!("ORank {} {} {}", b(own), nz(i), ires(&r, |x| nu(*x))), format!("RankSupport[{}].rank(parent,{})", who, i), &r);
+    }
+}
+
+fn obj_select_calls<T: Transformation>(c: &mut ObjCalls, rng: &mut Rng, p: &BitVector, q: &BitVector, ss: &SelectSupport<T>, own: bool, z: bool) {
+    let who = if own { "own" } else { "other" };
+    let name = if z { "Complement" } else { "Identity" };
+    let r = catch(|| (ss.superblocks(), (ss.long_superblocks(), ss.short_superblocks())));
+    c.push(format!("OSuper {} {} {}", b(own), b(z), ires(&r, |x| format!("({}, ({}, {}))", x.0, (x.1).0, (x.1).1))),
+        format!("SelectSupport<{}>[{}].superblocks/long/short", name, who), &r);
+    let (cnt, qcnt) = (T::count_ones(p), T::count_ones(q));
+    let mut at = extremes(cnt);
+    at.extend(extremes(qcnt));
+    for k in [cnt, qcnt] {
+        around(&mut at, round_up(k, 64));
+        around(&mut at, k / 64 * 64);
+        around(&mut at, round_up(k, 4096));
+        around(&mut at, k / 4096 * 4096);
+    }
+    for x in [63usize, 64, 65, 4095, 4096, 4097, 8191, 8192] {
+        at.push(x);
+    }
+    for _ in 0..6 {
+        at.push(rng.below((std::cmp::max(cnt, qcnt) + 130) as u64) as usize);
+    }
+    for r0 in uniq(at) {
+        mark(&format!("SelectSupport<{}>[{}, {} ones].select(BitVector(len={}, {} ones), {})", name, who, if own { cnt } else { qcnt }, p.len(), cnt, r0));
+        let r = fix_iv_get(catch(|| ss.select(p, r0)));
+        c.push(format!("OSel {} {} {} {}", b(own), b(z), nz(r0), ires(&r, |x| nu(*x))), format!("SelectSupport<{}>[{}].select(parent,{})", name, who, r0), &r);
+    }
+}
+
+// the parent `pbits` with its own supports and with the supports of `qbits`
+fn obj_batch(out: &mut Out, rng: &mut Rng, pbits: &[bool], qbits: &[bool], qdesc: &str) {
+    let p: BitVector = pbits.iter().cloned().collect();
+    let q: BitVector = qbits.iter().cloned().collect();
+    let loaded = rng.chance(1, 3);
+    let own = obj_sup(&p, loaded);
+    let other = obj_sup(&q, loaded);
+    let mut c = ObjCalls { terms: Vec::new(), descs: Vec::new(), is9: Vec::new() };
+    obj_t_calls::<Identity>(&mut c, rng, &p, false);
+    obj_t_calls::<Complement>(&mut c, rng, &p, true);
+    obj_rank_calls(&mut c, rng, &p, &q, &own.rank, true);
+    obj_rank_calls(&mut c, rng, &p, &q, &other.rank, false);
+    obj_select_calls::<Identity>(&mut c, rng, &p, &q, &own.sel, true, false);
+    obj_select_calls::<Complement>(&mut c, rng, &p, &q, &own.sel0, true, true);
+    obj_select_calls::<Identity>(&mut c, rng, &p, &q, &other.sel, false, false);
+    obj_select_calls::<Complement>(&mut c, rng, &p, &q, &other.sel0, false, true);
+    let (pw, qw) = (to_words(pbits), to_words(qbits));
+    out.stat(if pbits.len() % 64 == 0 { "obj.parent.word_aligned" } else { "obj.parent.partial_last_word" });
+    out.stat(if qbits.len() == 0 { "obj.other.empty" } else if qbits.len() < pbits.len() { "obj.other.shorter" } else if qbits.len() > pbits.len() { "obj.other.longer" } else { "obj.other.same_length" });
+    out.stat(if loaded { "obj.supports.loaded_back" } else { "obj.supports.fresh" });
+    if own.sel.long_superblocks() + own.sel0.long_superblocks() + other.sel.long_superblocks() + other.sel0.long_superblocks() > 0 {
+        out.stat("obj.with_long_superblock");
+    }
+    // small vectors: small cases (a failing case names few calls); large ones: one case, so that the model builds
+    // the supports once
+    let chunk = if pbits.len() > 2048 || qbits.len() > 2048 { usize::MAX } else { 90 };
+    let mut i = 0;
+    while i < c.terms.len() {
+        let j = std::cmp::min(c.terms.len(), i.saturating_add(chunk));
+        let hits: Vec<String> = (i..j).filter(|k| c.is9[*k]).map(|k| format!("{:?}", c.descs[k])).collect();
+        let js: Vec<String> = if hits.is_empty() { c.descs[i..j].iter().map(|d| format!("{:?}", d)).collect() } else { Vec::new() };
+        let short = |w: &Vec<u64>| if w.len() <= 8 { w.clone() } else { w[..8].to_vec() };
+        out.stat_n("calls.objects", (j - i) as u64);
+        out.stat_n("calls.objects.panicked", c.descs[i..j].iter().filter(|d| !d.ends_with("returned")).count() as u64);
+        out.case(if loaded { "obj_loaded" } else { "obj" },
+            format!("CObj {} {} {} {} {} {} [{}]", PATH, b(DBG), pbits.len(), nlist(&pw), qbits.len(), nlist(&qw), c.terms[i..j].join("; ")),
+            format!("{{\"struct\":\"Transformation/RankSupport/SelectSupport called directly\",\"parent_len\":{},\"parent_words\":{:?},\"other\":{:?},\"other_len\":{},\"other_words\":{:?},\"supports_loaded\":{},\"oob_calls\":[{}],\"calls\":[{}]}}",
+                pbits.len(), short(&pw), qdesc, qbits.len(), short(&qw), loaded, hits.join(","), js.join(",")), true);
+        i = j;
+    }
+}
+
 // ---------------------------------------------------------------- masks
 
 fn masks_batch(out: &mut Out) {
@@ -2256,6 +2455,61 @@ pub fn run(rng: &mut Rng, out: &mut Out, thorough: bool, variant: &str) {
         out.stat_n("mapped.file_elements", (bytes.len() / 8) as u64);
         bt.run(out, K_MAPPED, &label, seed, |o| mapped_batch(o, &path, &bytes, &label, &starts));
         let _ = fs::remove_file(&path);
+    }
+    // ---- objects: Transformation / RankSupport / SelectSupport called directly, own and foreign supports
+    let mut ospecs: Vec<(usize, Style)> = vec![
+        (0, Style::Zeros), (1, Style::Ones), (63, Style::Half), (64, Style::Half), (64, Style::Ones), (65, Style::Edge), (127, Style::Dense(5)),
+        (128, Style::Sparse(3)), (128, Style::Zeros), (129, Style::Half), (192, Style::Ones), (512, Style::Half), (513, Style::Runs(20)),
+        (4096, Style::Half), (4160, Style::Zeros),
+    ];
+    for _ in 0..(if thorough { 30 } else { 3 }) {
+        let len = if rng.below(2) == 0 { 64 * rng.range(1, 20) as usize } else { rng.below(1500) as usize };
+        ospecs.push((len, pick_style(rng)));
+    }
+    // a vector long and sparse enough for SelectSupport::new to store a LONG superblock (span >= bit_len(len)^4)
+    let mut far = vec![false; 131200];
+    for pos in [5usize, 70000, 131199] {
+        far[pos] = true;
+    }
+    for (len, style) in ospecs.iter() {
+        let pbits = gen_bits(rng, *len, *style);
+        let len = *len;
+        let shorter_style = pick_style(rng);
+        let mut others: Vec<(String, Vec<bool>)> = vec![
+            ("empty".to_string(), Vec::new()),
+            ("shorter".to_string(), gen_bits(rng, len / 2, shorter_style)),
+            ("longer".to_string(), gen_bits(rng, 2 * len + 37, Style::Half)),
+            ("all ones, word-aligned".to_string(), vec![true; round_up(len + 1, 64)]),
+            ("all zeros, same length".to_string(), vec![false; len]),
+            (if len % 64 == 0 { "one bit longer (not word-aligned)".to_string() } else { "rounded up to a word boundary".to_string() },
+                gen_bits(rng, if len % 64 == 0 { len + 1 } else { round_up(len, 64) }, Style::Dense(4))),
+        ];
+        if len <= 600 {
+            others.push(("two superblocks of ones".to_string(), vec![true; 4200]));
+        }
+        if len == 64 || len == 129 || len == 4096 {
+            others.push(("sparse with a long superblock".to_string(), far.clone()));
+        }
+        if len >= 4096 && !thorough {
+            others.truncate(4);
+        }
+        for (qdesc, qbits) in others.iter() {
+            let seed = rng.next();
+            out.stat("struct.objects");
+            bt.run(out, K_OBJ, &format!("objects: parent(len={},style={:?}) with supports of {} (len={})", len, style, qdesc, qbits.len()), seed, |o| {
+                let mut r = Rng::new(seed);
+                obj_batch(o, &mut r, &pbits, qbits, qdesc);
+            });
+        }
+    }
+    {
+        let qbits = gen_bits(rng, 300, Style::Half);
+        let seed = rng.next();
+        out.stat("struct.objects");
+        bt.run(out, K_OBJ, "objects: sparse parent with a long superblock", seed, |o| {
+            let mut r = Rng::new(seed);
+            obj_batch(o, &mut r, &far, &qbits, "shorter");
+        });
     }
     // ---- mask functions
     let seed = rng.next();
